@@ -15,8 +15,6 @@ structure RunHypI (e : Env) (G : Block) (x0 : WorldI) (evs : List EvI) : Prop wh
   genesisOnly : ∀ id x, AMap.get e.known id = some x → x.height = 0 → x = G
   /-- the `prev` pointer of the genesis block (the zero hash) is no block's id -/
   genesisPrev : ∀ id x, AMap.get e.known id = some x → x.id ≠ G.prev
-  /-- what the rollback proofs provide, wherever the node stands and whatever the keystore knows -/
-  disc : ∀ own ch, DisconnectSpec ({ e with own := own }.ctx ch)
   /-- the initial node chain is a well-formed valid chain from `G` made of known blocks -/
   chain0 : ChainOK { e with own := x0.own } G x0.w.chain
   /-- so is the node's chain after every node / handler event – valid for the keystore view of that moment -/
@@ -37,7 +35,7 @@ structure RunHypI (e : Env) (G : Block) (x0 : WorldI) (evs : List EvI) : Prop wh
 /-- the static hypotheses of LedgerHistory.lean, for any keystore view -/
 theorem RunHypI.envHyp {e : Env} {G : Block} {x0 : WorldI} {evs : List EvI} (H : RunHypI e G x0 evs)
     (own : Own) : EnvHyp { e with own := own } G :=
-  ⟨H.genesisOnly, H.genesisPrev, H.disc own⟩
+  ⟨H.genesisOnly, H.genesisPrev⟩
 
 /-- THE INVARIANT ALONG A HISTORY WITH ISSUANCE, in the world `x` with `hist` the node chains so far: the
     invariant `JS` of the fixed-keystore histories for the CURRENT keystore view and some stored chain `S`;
@@ -174,15 +172,11 @@ theorem chainsI_map_node (e : Env) (x : WorldI) (evs : List Ev) :
     show x.w.chain :: chainsI e (stepI e x (.node ev)) (evs.map .node) = _
     rw [ih]; rfl
 
-/-- `RunHyp` (fixed keystore view `own`) gives `RunHypI` for the same history without issuance – provided the
-    rollback interface is available (`disc` of `RunHypI` quantifies over keystore views; with no issuance only
-    `own` occurs, but the field is stated for all) -/
-theorem RunHyp.toRunHypI {e : Env} {G : Block} {w0 : World} {evs : List Ev} (H : RunHyp e G w0 evs)
-    (hdisc : ∀ own ch, DisconnectSpec ({ e with own := own }.ctx ch)) :
+/-- `RunHyp` (fixed keystore view `own`) gives `RunHypI` for the same history without issuance -/
+theorem RunHyp.toRunHypI {e : Env} {G : Block} {w0 : World} {evs : List Ev} (H : RunHyp e G w0 evs) :
     RunHypI e G ⟨e.own, w0⟩ (evs.map .node) where
   genesisOnly := H.genesisOnly
   genesisPrev := H.genesisPrev
-  disc := hdisc
   chain0 := H.chains _ (chainsOf_head_mem e w0 evs)
   chains := by
     intro pre ev post heq
